@@ -397,7 +397,9 @@ class C06(Prop):
             r = obs["result"]
             code = 0
             res = g_list([f"(mkcol {g_str(n)} {g_str(u)} {g_list([str(x) for x in v])})" for n, u, v in zip(r["names"], r["units"], r["cols"])])
-        return g_pair(g_pair(g_pair(g_pair(cols, p), tab), str(code)), res)
+        a = obs.get("after") or b
+        after = g_list([f"(mkcol {g_str(n)} {g_str(u)} {g_list([str(x) for x in v])})" for n, u, v in zip(a["names"], a["units"], a["cols"])])
+        return g_pair(g_pair(g_pair(g_pair(g_pair(cols, p), tab), str(code)), res), after)
 
     def nontrivial(self, case, obs):
         return bool(obs.get("calls")) or "error" in obs
